@@ -167,14 +167,20 @@ def tree_tags(plain):
     """Shape classes of a (valid) tree that matter to the derivation listings."""
     tags = set()
 
+    def empty_yield(node):
+        """A variable subtree without any terminal leaf (it derives the empty word)."""
+        sym, kids = node
+        if sym[0] == "T":
+            return False
+        return all(empty_yield(k) for k in kids)
+
     def walk(node):
         sym, kids = node
         n = len(kids)
         for i, k in enumerate(kids):
-            is_eps_leaf = k[0][0] == "V" and not k[1]
-            if is_eps_leaf and any(kids[j][0][0] == "V" for j in range(i + 1, n)):
-                # an epsilon subtree with a variable sibling somewhere to its right
-                tags.add("eps_subtree_left_of_variable_sibling")
+            if k[0][0] == "V" and empty_yield(k) and any(kids[j][0][0] == "V" for j in range(i + 1, n)):
+                # a son deriving the empty word with a variable sibling somewhere to its right
+                tags.add("empty_yield_son_left_of_variable_sibling")
             if k[0][0] == "T" and i < n - 1 and any(kids[j][0][0] == "V" for j in range(i)):
                 # a terminal son that is not the last son, with a variable sibling to its left
                 tags.add("inner_terminal_son_right_of_variable_sibling")
